@@ -148,27 +148,47 @@ func checkC20(cc any) *ev.Verdict {
 		return v.Failf("check-status", "`numscript check` exits with %d but the library counts %d error(s) among %d diagnostic(s)\nscript: %q\nstdout: %s", pc.status, nerr, len(a.raw), text, pc.stdout)
 	}
 	plain := ansiRe.ReplaceAllString(pc.stdout, "")
-	headers := regexp.MustCompile(`(?m)^`+regexp.QuoteMeta(scriptPath)+`:\d+:\d+ - `).FindAllString(plain, -1)
+	// one `FILE:L:C` position per diagnostic, each followed (somewhere later) by its message;
+	// the exact layout, colours and wording of the severity are not part of the property
+	headers := regexp.MustCompile(`(?m)^`+regexp.QuoteMeta(scriptPath)+`:\d+:\d+\b`).FindAllString(plain, -1)
 	if len(headers) != len(a.raw) {
 		return v.Failf("check-count", "`numscript check` prints %d diagnostics, the library reports %d\nscript: %q\nstdout: %s", len(headers), len(a.raw), text, plain)
 	}
 	okOffset := false
 	var missing string
 	for _, off := range []int{0, 1} {
-		want := map[string]int{}
+		wantPos := map[string]int{}
+		wantBlock := map[string]int{}
 		for _, d := range a.raw {
-			sev := "Error"
-			if d.Kind.Severity() == verifapi.WarningSeverity {
-				sev = "Warning"
-			}
-			want[fmt.Sprintf("%s:%d:%d - %s\n%s\n", scriptPath, d.Range.Start.Line+off, d.Range.Start.Character+off, sev, d.Kind.Message())]++
+			pos := fmt.Sprintf("%s:%d:%d", scriptPath, d.Range.Start.Line+off, d.Range.Start.Character+off)
+			wantPos[pos]++
+			wantBlock[pos+"\x00"+d.Kind.Message()]++
 		}
 		all := true
-		for block, n := range want {
-			if strings.Count(plain, block) < n {
+		for pos, n := range wantPos {
+			if len(regexp.MustCompile(`(?m)^`+regexp.QuoteMeta(pos)+`\b`).FindAllString(plain, -1)) != n {
 				all = false
-				missing = block
-				break
+				missing = pos
+			}
+		}
+		for block, n := range wantBlock {
+			parts := strings.SplitN(block, "\x00", 2)
+			// the message must appear after its position at least n times
+			cnt := 0
+			rest := plain
+			for {
+				i := strings.Index(rest, parts[0])
+				if i < 0 {
+					break
+				}
+				rest = rest[i+len(parts[0]):]
+				if strings.Contains(rest, parts[1]) {
+					cnt++
+				}
+			}
+			if cnt < n {
+				all = false
+				missing = parts[0] + " " + parts[1]
 			}
 		}
 		if all {
@@ -177,7 +197,7 @@ func checkC20(cc any) *ev.Verdict {
 		}
 	}
 	if !okOffset {
-		return v.Failf("check-content", "`numscript check` does not print the diagnostic %q (with its position)\nscript: %q\nstdout: %s", missing, text, plain)
+		return v.Failf("check-content", "`numscript check` does not print the diagnostic %q (position and message)\nscript: %q\nstdout: %s", missing, text, plain)
 	}
 	if len(a.raw) > 0 {
 		v.NonTrivial = true
